@@ -430,7 +430,9 @@ func execute(plan Plan, servers *dkgrig.Servers) (*runLog, error) {
 			break
 		}
 	}
-	// drain: everybody (slow parties included) catches up with the same chain head and sends
+	// drain: everybody (slow parties included) catches up with the same chain head and sends;
+	// only the driver closes blocks now, so that all parties end at the same position
+	rig.Chain.OnBroadcast = nil
 	for k := 0; k < 4; k++ {
 		for i := 0; i < n; i++ {
 			if plan.byz(i) == nil {
